@@ -701,6 +701,22 @@ fn cli_cases(out: &mut Out, rng: &mut Rng, cli: &Path, n: usize, work: &Path, us
     json!({"cli_projects": n, "cli_failed": failed, "module_cases": emitted, "node_used": values.is_some()})
 }
 
+/// directives that may stand next to @model (all valid on object types and their fields)
+const MIX_DIRECTIVES: &str = "directive @da on OBJECT | FIELD_DEFINITION\ndirective @db(x: Int) repeatable on OBJECT | FIELD_DEFINITION\ndirective @dc on OBJECT | FIELD_DEFINITION\ndirective @dx on OBJECT\ndirective @dy on OBJECT\n";
+/// `model` among 2-3 other directive applications, at the first, a middle or the last position: removing it must keep
+/// the others in their order
+fn dir_mix(rng: &mut Rng, model: &str) -> String {
+    let mut ds: Vec<String> = vec!["@da".into(), format!("@db(x: {})", rng.below(3)), "@dc".into()];
+    if rng.chance(1, 2) { ds.push(format!("@db(x: {})", 3 + rng.below(3))); }
+    if rng.chance(1, 4) { ds.remove(rng.below(3)); }
+    rng.shuffle(&mut ds);
+    let pos = rng.below(ds.len() + 1);
+    ds.insert(pos, model.to_string());
+    ds.join(" ")
+}
+/// corpus: @model first / middle / last among four applications, on object types and on fields, and with an extension
+const MODEL_ORDER_CORPUS: &str = "type Query @model(type: \"M\") @da @db(x: 1) @dc { a: Int }\ntype A @da @model(type: \"M\") @db(x: 1) @dc { a: Int }\ntype B @da @db(x: 1) @dc @model(type: \"M\") { a: Int }\ntype C {\n  f: Int @model @da @db(x: 1) @dc\n  g: Int @da @model @db(x: 1) @dc\n  h: Int @da @db(x: 1) @dc @model\n  i: Int @deprecated @model @db(x: 1) @db(x: 2)\n}\ntype D @model(type: \"M\") @da { a: Int }\nextend type D @dx @dy\ntype E @da @model(type: \"M\") { a: Int }\nextend type E @db(x: 1) @dx\n";
+
 /// a valid schema (gen.rs) decorated with what the server output must strip
 fn server_source(rng: &mut Rng, plugin: bool, mode: Mode) -> String {
     let s = gen_schema(rng, &SchemaCfg { descriptions: mode == Mode::Adversarial, custom_directives: true });
@@ -742,19 +758,29 @@ fn server_source(rng: &mut Rng, plugin: bool, mode: Mode) -> String {
     let mut o = String::new();
     let mut kind = "";          // kind of the definition the current line belongs to
     let mut obj_model = false;
+    let mut extensions: Vec<String> = vec![];
     for line in src.lines() {
         if !line.starts_with(' ') && !line.starts_with('}') { kind = line.split(' ').next().unwrap_or(""); obj_model = false; }
         if line.starts_with("scalar ") && rng.chance(2, 3) {
             o.push_str(&format!("{line} @nitrogql_ts_type(resolverInput: \"string\", resolverOutput: \"Date | string\", operationInput: \"string\", operationOutput: \"string\")\n"));
         } else if plugin && line.starts_with("type ") && line.ends_with(" {") && rng.chance(1, 3) {
             obj_model = true;
-            o.push_str(&line.replacen(" {", " @model(type: \"import('./m').M\") {", 1)); o.push('\n');
+            let name = line.split(' ').nth(1).unwrap_or("").to_string();
+            let ds = dir_mix(rng, "@model(type: \"import('./m').M\")");
+            o.push_str(&line.replacen(" {", &format!(" {ds} {{"), 1)); o.push('\n');
+            // directives appended by an extension are merged after the definition's own
+            if rng.chance(1, 2) { extensions.push(format!("extend type {name} {}", if rng.chance(1, 2) { "@dx" } else { "@dx @dy" })); }
         } else if plugin && line.starts_with("  ") && line.contains(": ") && !obj_model && rng.chance(1, 5)
             && (kind == "type" || (mode == Mode::Adversarial && (kind == "interface" || kind == "input"))) {
-            o.push_str(&format!("{line} @model\n"));
+            let ds = if kind == "type" { dir_mix(rng, "@model") } else { "@model".to_string() };
+            o.push_str(&format!("{line} {ds}\n"));
         } else { o.push_str(line); o.push('\n'); }
     }
     src = o;
+    if plugin {
+        src.push_str(MIX_DIRECTIVES);
+        for e in &extensions { src.push_str(e); src.push('\n'); }
+    }
     // descriptions and an extension, so that merging and description printing are exercised
     let mut syn = Syn { rng, mode, top: true };
     let _ = syn.top;
@@ -815,6 +841,7 @@ fn main() {
         op_case(&mut out, src, "corpus", true);
     }
 
+    server_case(&mut out, &format!("{MODEL_ORDER_CORPUS}{MIX_DIRECTIVES}"), true, "corpus");
     // 1. print_string: every string over an adversarial alphabet up to a length, then random longer ones
     let alpha: Vec<char> = vec!['a', '"', '\\', '\n', '\r', '`', '$', '{', ' ', '\u{7}', '\u{e9}'];
     let maxlen = if thorough { 5 } else { 2 };
